@@ -408,6 +408,20 @@ func init() {
 						judgeCall(c, model.Int(n), "decimal", []model.Value{model.Str(strs[i]), model.Int(n)})
 					}
 				}})
+			// counts beyond what formatting helpers and small buffers take: the zeros, copies and characters are all there
+			bigCounts := []int64{255, 256, 1000, 4096, 65535, 65536, 65537, 999999, 1000000, 1000001, 1<<20 - 1, 1 << 20, 1<<20 + 1, 1<<21 + 3, 1 << 22}
+			secs = append(secs, core.Section{Name: "large-counts", Exhaustive: true, N: len(bigCounts),
+				Run: func(c *core.Ctx, i int) {
+					n := bigCounts[i]
+					judgeCall(c, model.Int(5), "decimal", []model.Value{model.Str(","), model.Int(n)})
+					judgeCall(c, model.Str("15"), "decimal", []model.Value{model.Str("%"), model.Int(n)})
+					judgeCall(c, model.Str("é"), "repeat", []model.Value{model.Int(n)})
+					long := model.Str(strings.Repeat("aé中", int(n/3)+1))
+					judgeCall(c, long, "len", nil)
+					judgeCall(c, long, "truncate", []model.Value{model.Int(n - 1)})
+					judgeCall(c, long, "at", []model.Value{model.Int(n - 1)})
+					judgeCall(c, long, "last", nil)
+				}})
 			// contains is structural equality: values that print alike but differ in structure or kind
 			type cpair struct{ recv, arg model.Value }
 			i1, i2 := model.Int(1), model.Int(2)
@@ -484,6 +498,46 @@ func init() {
 					if why := compare(exp, got, false, nil); why != "" {
 						c.Violation("purity:sequence", why, map[string]any{"source": src, "data": model.DescribeData(sq.data)})
 					}
+				}})
+			// several goroutines call built-ins at once, each on its own receivers: every call still returns what it
+			// returns alone (the alone value was taken first, one call at a time; the other sections judge it)
+			concCalls := []string{"s.reverse()", "s.upper()", "s.lower()", "s.capitalize()", "s.trim()", "s.trim(\"g\")", "s.first()", "s.last()", "s.len()", "s.at(2)", "s.truncate(4)", "s.truncate(4, \"--\")", "s.repeat(2)",
+				"s.split(\"-\").join(\"+\")", "s.contains(\"-\")", "s.raw()", "s.trimLeft()", "s.trimRight(\"7\")", "s.split(\"\").reverse().join(\"\")", "s.decimal()",
+				"a.reverse().join(\",\")", "a.join(\"/\")", "a.slice(1).join(\",\")", "a.append(n).join(\",\")", "a.prepend(n).join(\",\")", "a.contains(n)", "a.len()",
+				"n.str()", "n.decimal(\",\", 3)", "n.abs()", "n.float()", "n.len()", "f.str()", "f.round()", "f.ceil()", "f.floor()", "f.int()", "f.abs()", "(f / 3.0).round(2)", "f--", "f++", "n--", "(n == 3).then(s, f)"}
+			secs = append(secs, core.Section{Name: "concurrent-built-ins", N: 8,
+				Run: func(c *core.Ctx, i int) {
+					const G, N = 8, 160
+					c.Input(map[string]any{"goroutines": G, "calls_each": N, "round": i})
+					c.Nontrivial(fmt.Sprint("builtin-burst", i, c.Seed))
+					type one struct {
+						src  string
+						data map[string]any
+						want string
+					}
+					plan := make([][]one, G)
+					for g := 0; g < G; g++ {
+						for n := 0; n < N; n++ {
+							call := concCalls[(n+g*5+i)%len(concCalls)]
+							str := fmt.Sprintf("g%d-%s-n%d7", g, strings.Repeat([]string{"αβγ", "x", "中文", "Zz ", "😀é"}[(g+n)%5], 1+(n*7+g)%40), n)
+							data := map[string]any{"s": str, "a": []int{g, n, g * n, n - g}, "n": g*1000 + n - 500, "f": float64(g*100+n) + 0.625}
+							src := "<{{ " + call + " }}|{{ s }}|{{ a }}|{{ n }}|{{ f }}>"
+							alone := evalString(c, src, data)
+							if alone.Panicked {
+								return
+							}
+							want := alone.Out
+							if alone.Err != nil {
+								want = "error: " + alone.Err.Error()
+							}
+							plan[g] = append(plan[g], one{src, data, want})
+						}
+					}
+					concurrentBurst(c, G, N, func(g, n int) (string, map[string]any, string) {
+						o := plan[g][n]
+						want := o.want
+						return o.src, o.data, want
+					})
 				}})
 			// random tuples
 			secs = append(secs, core.Section{Name: "random-calls", N: nRandom,
